@@ -250,9 +250,10 @@ func (l *Lexer) peekChar() byte {
 	return l.input[l.readPosition]
 }
 
+// prevChar is the byte before the current one (0 at the start of the input)
 func (l *Lexer) prevChar() byte {
 	if l.readPosition < 2 {
-		return l.input[l.readPosition-1]
+		return 0
 	}
 	return l.input[l.readPosition-2]
 }
